@@ -4,6 +4,13 @@
 // tasks park on a harness-controlled gate while holding their guard. The
 // explorer enumerates every order of spawning, polling, gate opening and
 // cancelling.
+//
+// A subscriber outlives the task that uses it: cancelling a pending
+// `next()` / `next_ref()` future (what `select!` and timeouts do) leaves the
+// subscriber usable, and nothing it had not handed out may be lost by that.
+// The usual contract of async code applies to the harness: a subscriber whose
+// waker was woken is polled again (or dropped) eventually - `Settle` polls idle
+// subscribers that were left behind by a cancelled task once more.
 
 use std::{cell::RefCell, rc::Rc};
 
@@ -18,10 +25,21 @@ enum TaskKind {
     Get,
     /// sub.next().await on subscriber s
     SubNext(u8),
+    /// sub.next_ref().await: two lock acquisitions inside one call
+    SubNextRef(u8),
     /// sub.next_now().await
     SubNextNow(u8),
     /// the subscriber polled as a `Stream` (poll_next), not through next()
     SubStream(u8),
+}
+
+impl TaskKind {
+    fn sub(self) -> Option<u8> {
+        match self {
+            TaskKind::SubNext(s) | TaskKind::SubNextRef(s) | TaskKind::SubNextNow(s) | TaskKind::SubStream(s) => Some(s),
+            _ => None,
+        }
+    }
 }
 
 #[derive(Clone, Copy, Debug, PartialEq, Eq, Hash)]
@@ -43,6 +61,9 @@ struct ACfg {
     only_woken: bool,
     /// small alphabet (no cancel, fewer task kinds) for the deeper sweep
     small: bool,
+    /// alphabet for cancellation histories: write-guard tasks (one that
+    /// writes, one that does not), next() / next_ref() tasks, cancel
+    cancel_focus: bool,
 }
 
 #[derive(Clone, Hash, Debug)]
@@ -81,8 +102,8 @@ enum TaskOut {
     Prev(u8),
     OptPrev(Option<u8>),
     Value(u8),
-    Sub(ASub, Option<u8>),
-    SubNow(ASub, u8),
+    Sub(Option<u8>),
+    SubNow(u8),
 }
 
 struct TaskR {
@@ -109,7 +130,18 @@ impl Harness for AGuardH {
 
     fn enabled(&self, cfg: &ACfg, m: &AModel, out: &mut Vec<ATok>) {
         let alive = m.tasks.iter().filter(|t| t.1).count() as u8;
-        if alive < cfg.max_tasks && (m.tasks.len() as u8) < cfg.max_tasks + 3 {
+        if cfg.cancel_focus {
+            if alive < cfg.max_tasks && (m.tasks.len() as u8) < cfg.max_tasks + 3 {
+                out.push(ATok::Spawn(TaskKind::WGuard(Some(1))));
+                out.push(ATok::Spawn(TaskKind::WGuard(None)));
+                for s in 0..cfg.nsubs {
+                    if !m.sub_busy[s as usize] {
+                        out.push(ATok::Spawn(TaskKind::SubNextRef(s)));
+                        out.push(ATok::Spawn(TaskKind::SubNext(s)));
+                    }
+                }
+            }
+        } else if alive < cfg.max_tasks && (m.tasks.len() as u8) < cfg.max_tasks + 3 {
             out.push(ATok::Spawn(TaskKind::WGuard(Some(1))));
             out.push(ATok::Spawn(TaskKind::RGuard));
             out.push(ATok::Spawn(TaskKind::Set(2)));
@@ -123,6 +155,7 @@ impl Harness for AGuardH {
                     out.push(ATok::Spawn(TaskKind::SubNext(s)));
                     out.push(ATok::Spawn(TaskKind::SubStream(s)));
                     if !cfg.small {
+                        out.push(ATok::Spawn(TaskKind::SubNextRef(s)));
                         out.push(ATok::Spawn(TaskKind::SubNextNow(s)));
                     }
                 }
@@ -137,7 +170,7 @@ impl Harness for AGuardH {
                 if matches!(t.0, TaskKind::WGuard(_) | TaskKind::RGuard) && !t.2 {
                     out.push(ATok::OpenGate(k as u8));
                 }
-                if !cfg.small {
+                if !cfg.small && (!cfg.cancel_focus || t.0.sub().is_some()) {
                     out.push(ATok::Cancel(k as u8));
                 }
             }
@@ -150,7 +183,7 @@ impl Harness for AGuardH {
         // are cancelled. `run` treats polls of finished tasks as no-ops.
         match *t {
             ATok::Spawn(k) => {
-                if let TaskKind::SubNext(s) | TaskKind::SubNextNow(s) | TaskKind::SubStream(s) = k {
+                if let Some(s) = k.sub() {
                     m.sub_busy[s as usize] = true;
                 }
                 m.tasks.push((k, true, false));
@@ -159,7 +192,10 @@ impl Harness for AGuardH {
             ATok::OpenGate(k) => m.tasks[k as usize].2 = true,
             ATok::Cancel(k) => {
                 m.tasks[k as usize].1 = false;
-                // a cancelled subscriber task loses its subscriber: it stays busy
+                // the subscriber of a cancelled task is free again
+                if let Some(s) = m.tasks[k as usize].0.sub() {
+                    m.sub_busy[s as usize] = false;
+                }
             }
             ATok::Settle => {
                 // everything that can finish has finished; subscriber tasks
@@ -191,7 +227,13 @@ impl Harness for AGuardH {
 struct AWorld {
     cfg: ACfg,
     ob: ASh,
-    subs: Vec<Option<ASub>>,
+    subs: Vec<Rc<RefCell<ASub>>>,
+    /// a task is using the subscriber
+    busy: Vec<bool>,
+    /// the subscriber was left behind by a cancelled pending task (or by an
+    /// earlier idle poll that answered Pending): `Settle` polls it again
+    idle: Vec<Option<Arc<Flag>>>,
+    left_behind: Vec<bool>,
     /// model: observed epoch per subscriber
     seen: Vec<u32>,
     value: u8,
@@ -203,8 +245,9 @@ struct AWorld {
 impl AWorld {
     fn new(cfg: &ACfg) -> Self {
         let ob = SharedObservable::new_async(PV::mk(0));
-        let subs = (0..cfg.nsubs).map(|_| Some(now(ob.subscribe()))).collect();
-        AWorld { cfg: cfg.clone(), ob, subs, seen: vec![1; cfg.nsubs as usize], value: 0, epoch: 1, tasks: vec![], step: 0 }
+        let subs = (0..cfg.nsubs).map(|_| Rc::new(RefCell::new(now(ob.subscribe())))).collect();
+        let n = cfg.nsubs as usize;
+        AWorld { cfg: cfg.clone(), ob, subs, busy: vec![false; n], idle: vec![None; n], left_behind: vec![false; n], seen: vec![1; cfg.nsubs as usize], value: 0, epoch: 1, tasks: vec![], step: 0 }
     }
 
     fn holders(&self) -> (usize, usize) {
@@ -258,28 +301,48 @@ impl AWorld {
             TaskKind::SetIfNotEq(v) => Box::pin(async move { TaskOut::OptPrev(ob.set_if_not_eq(PV::mk(v)).await.map(|p| p.code())) }),
             TaskKind::Get => Box::pin(async move { TaskOut::Value(ob.get().await.code()) }),
             TaskKind::SubNext(s) => {
-                let mut sub = self.subs[s as usize].take().expect("subscriber is free");
+                let rc = self.claim(s);
                 Box::pin(async move {
+                    let mut sub = rc.borrow_mut();
                     let r = sub.next().await.map(|v| v.code());
-                    TaskOut::Sub(sub, r)
+                    TaskOut::Sub(r)
+                })
+            }
+            TaskKind::SubNextRef(s) => {
+                let rc = self.claim(s);
+                Box::pin(async move {
+                    let mut sub = rc.borrow_mut();
+                    let r = sub.next_ref().await.map(|g| g.code());
+                    TaskOut::Sub(r)
                 })
             }
             TaskKind::SubNextNow(s) => {
-                let mut sub = self.subs[s as usize].take().expect("subscriber is free");
+                let rc = self.claim(s);
                 Box::pin(async move {
+                    let mut sub = rc.borrow_mut();
                     let r = sub.next_now().await.code();
-                    TaskOut::SubNow(sub, r)
+                    TaskOut::SubNow(r)
                 })
             }
             TaskKind::SubStream(s) => {
-                let mut sub = self.subs[s as usize].take().expect("subscriber is free");
+                let rc = self.claim(s);
                 Box::pin(async move {
-                    let r = std::future::poll_fn(|cx| Pin::new(&mut sub).poll_next(cx)).await.map(|v| v.code());
-                    TaskOut::Sub(sub, r)
+                    let mut sub = rc.borrow_mut();
+                    let r = std::future::poll_fn(|cx| Pin::new(&mut *sub).poll_next(cx)).await.map(|v| v.code());
+                    TaskOut::Sub(r)
                 })
             }
         };
         self.tasks.push(TaskR { kind, fut: Some(fut), gate, holding, flag: None, done: false });
+    }
+
+    fn claim(&mut self, s: u8) -> Rc<RefCell<ASub>> {
+        let s = s as usize;
+        assert!(!self.busy[s], "subscriber is free");
+        self.busy[s] = true;
+        self.idle[s] = None;
+        self.left_behind[s] = false;
+        self.subs[s].clone()
     }
 
     fn v(&self, sig: &str, detail: String) -> Violation {
@@ -307,7 +370,7 @@ impl AWorld {
                 self.tasks[k].flag = Some(flag);
                 if !was_holding && (w_before > 0 || (r_before > 0 && matches!(kind, TaskKind::Set(_) | TaskKind::SetIfNotEq(_) | TaskKind::WGuard(_)))) {
                     st.mark("task_waits_for_the_lock");
-                    if matches!(kind, TaskKind::SubNext(_) | TaskKind::SubStream(_)) && w_before > 0 {
+                    if matches!(kind, TaskKind::SubNext(_) | TaskKind::SubNextRef(_) | TaskKind::SubStream(_)) && w_before > 0 {
                         st.mark("subscriber_polled_under_write_guard");
                     }
                 }
@@ -363,7 +426,7 @@ impl AWorld {
                             return Err(self.v("get-value", format!("task {k}: get returned {x}, value is {}", self.value)));
                         }
                     }
-                    (TaskKind::SubNext(s) | TaskKind::SubStream(s), TaskOut::Sub(sub, r)) => {
+                    (TaskKind::SubNext(s) | TaskKind::SubNextRef(s) | TaskKind::SubStream(s), TaskOut::Sub(r)) => {
                         let s = s as usize;
                         if self.seen[s] == self.epoch {
                             return Err(self.v("next-ready-without-update", format!("task {k}: next() returned {r:?} although subscriber {s} had observed the latest update")));
@@ -372,18 +435,18 @@ impl AWorld {
                             return Err(self.v("next-value", format!("task {k}: next() returned {r:?}, value is {}", self.value)));
                         }
                         self.seen[s] = self.epoch;
-                        self.subs[s] = Some(sub);
+                        self.busy[s] = false;
                         if self.tasks[k].flag.is_some() {
                             st.mark("subscriber_ready_after_waiting");
                         }
                     }
-                    (TaskKind::SubNextNow(s), TaskOut::SubNow(sub, x)) => {
+                    (TaskKind::SubNextNow(s), TaskOut::SubNow(x)) => {
                         let s = s as usize;
                         if x != self.value {
                             return Err(self.v("next-now-value", format!("task {k}: next_now() returned {x}, value is {}", self.value)));
                         }
                         self.seen[s] = self.epoch;
-                        self.subs[s] = Some(sub);
+                        self.busy[s] = false;
                     }
                     _ => return Err(self.v("harness", "task output of the wrong kind".into())),
                 }
@@ -410,6 +473,13 @@ impl AWorld {
         }
         for _round in 0..64 {
             let mut progressed = false;
+            for s in 0..self.subs.len() {
+                let due = !self.busy[s] && (self.left_behind[s] || self.idle[s].as_ref().is_some_and(|f| f.woken()));
+                if due {
+                    self.poll_idle(s, st)?;
+                    progressed = true;
+                }
+            }
             for k in 0..self.tasks.len() {
                 let woken = match (&self.tasks[k].fut, &self.tasks[k].flag) {
                     (Some(_), Some(f)) => f.woken(),
@@ -427,15 +497,58 @@ impl AWorld {
         Ok(())
     }
 
+    /// Poll a subscriber that no task is using (it was left behind by a
+    /// cancelled task) once, as a stream.
+    fn poll_idle(&mut self, s: usize, st: &mut Stats) -> Result<(), Violation> {
+        self.left_behind[s] = false;
+        let (flag, waker) = flag_waker();
+        let mut cx = Context::from_waker(&waker);
+        let r = {
+            let mut sub = self.subs[s].borrow_mut();
+            Pin::new(&mut *sub).poll_next(&mut cx).map(|o| o.map(|v| v.code()))
+        };
+        st.transitions += 1;
+        st.mark("subscriber_polled_again_after_its_task_was_cancelled");
+        match r {
+            Poll::Pending => {
+                self.idle[s] = Some(flag);
+                Ok(())
+            }
+            Poll::Ready(r) => {
+                self.idle[s] = None;
+                if self.seen[s] == self.epoch {
+                    return Err(self.v("next-ready-without-update", format!("idle subscriber {s}: poll_next returned {r:?} although it had observed the latest update")));
+                }
+                if r != Some(self.value) {
+                    return Err(self.v("next-value", format!("idle subscriber {s}: poll_next returned {r:?}, value is {}", self.value)));
+                }
+                self.seen[s] = self.epoch;
+                Ok(())
+            }
+        }
+    }
+
     /// After settling, only a subscriber task with nothing to observe may
     /// still be pending.
     fn check_stuck(&self) -> Result<(), Violation> {
+        for s in 0..self.subs.len() {
+            if !self.busy[s] && self.idle[s].is_some() && self.seen[s] != self.epoch {
+                return Err(self.v(
+                    "update-lost-by-cancelled-future",
+                    format!(
+                        "subscriber {s} was left behind by a cancelled task and polled again: it answers Pending although it never handed out the latest update (value {}); its waker was woken: {:?}",
+                        self.value,
+                        self.idle[s].as_ref().map(|f| f.woken())
+                    ),
+                ));
+            }
+        }
         for (k, t) in self.tasks.iter().enumerate() {
             if t.done || t.fut.is_none() {
                 continue;
             }
             let legit = match t.kind {
-                TaskKind::SubNext(s) | TaskKind::SubStream(s) => self.seen[s as usize] == self.epoch,
+                TaskKind::SubNext(s) | TaskKind::SubNextRef(s) | TaskKind::SubStream(s) => self.seen[s as usize] == self.epoch,
                 _ => false,
             };
             if !legit {
@@ -457,8 +570,8 @@ impl AWorld {
             self.step = i;
             match *t {
                 ATok::Spawn(kind) => {
-                    if let TaskKind::SubNext(s) | TaskKind::SubNextNow(s) | TaskKind::SubStream(s) = kind {
-                        if self.subs[s as usize].is_none() {
+                    if let Some(s) = kind.sub() {
+                        if self.busy[s as usize] {
                             // its previous task is still pending: keep task
                             // indices aligned with the enumeration model
                             self.tasks.push(TaskR { kind, fut: None, gate: Rc::new(RefCell::new(GateState::default())), holding: Rc::new(RefCell::new(false)), flag: None, done: true });
@@ -500,8 +613,18 @@ impl AWorld {
                         if t.fut.is_some() && t.flag.is_some() {
                             st.hit("pending_task_cancelled");
                         }
+                        let was_pending = t.fut.is_some() && t.flag.is_some();
                         t.fut = None; // drops the future: guards and queue entries are released
                         t.done = true;
+                        if let Some(s) = t.kind.sub() {
+                            // the subscriber survives its task
+                            let s = s as usize;
+                            self.busy[s] = false;
+                            self.left_behind[s] = was_pending;
+                            if was_pending {
+                                st.mark("subscriber_task_cancelled_subscriber_kept");
+                            }
+                        }
                     }
                 }
             }
